@@ -159,7 +159,8 @@ Definition ape_locate (real : bool) (f : list Z) : result (option loc) :=
       | Ok start => Ok (Some (mkLoc start header data (Some p) end_ (size - 32) items flags false))
       end
     | _ =>
-      let end_ := 32 + size in
+      (* a header claiming more than the file holds: the tag ends where the file ends *)
+      let end_ := Z.min (32 + size) (Z.max (zlen f) 32) in
       let footer := if is_marker f (end_ - 32) then Some (end_ - 32) else None in
       let size' := match footer with Some _ => size - 32 | None => size end in
       if size' <? 0 then Raise EMutagen else           (* raise APEBadItemError("invalid tag size") *)
